@@ -13,23 +13,22 @@ BigMax == <<2, 143, 166, 174, 0>>
 Args32 == {<<255>>, <<>>, <<1>>, <<2>>, <<0, 255, 255, 255, 254>>, <<0, 255, 255, 255, 255>>, <<1, 0, 0, 0, 0>>}
 Args64 == {<<255>>, <<>>, <<1>>, <<2>>, <<0, 255, 255, 255, 255, 255, 255, 255, 254>>, <<0, 255, 255, 255, 255, 255, 255, 255, 255>>,
            <<1, 0, 0, 0, 0, 0, 0, 0, 0>>}
-LockConds == {Cons(Op(op), L(<<Atom(a)>>)) : op \in HeightOps, a \in Args32}
-             \cup {Cons(Op(op), L(<<Atom(a)>>)) : op \in LockOps \ HeightOps, a \in Args64}
-
-CondSeqs == UNION {[1..n -> LockConds] : n \in 1..MaxAsserts}
+ArgsOf(op) == IF op \in HeightOps THEN Args32 ELSE Args64
+LockPicks == UNION {{<<op, a>> : a \in ArgsOf(op)} : op \in LockOps}
+CondOf(p) == Cons(Op(p[1]), L(<<Atom(p[2])>>))
 
 Spend(parent, ph, amtAtom, conds) == L(<<Atom(parent), Atom(ph), Atom(amtAtom), conds>>)
 EphAmt == <<7>>
-Inputs ==
-  {[tree |-> L(<<L(<<Spend(P1, Z1, Coin1Amt, L(cs))>>)>>), flags |-> {"DONT_VALIDATE_SIGNATURE"}, max |-> BigMax, clvm |-> Zero, vis |-> "empty",
-    consts |-> Doms, validKeys |-> {}] : cs \in CondSeqs}
-  \cup (IF TwoSpends THEN
-        \* the second spend is the ephemeral child of the first, or an unrelated coin; one assertion each
-        {[tree |-> L(<<L(<<Spend(P1, Z1, Coin1Amt, L(<<Cons(Op(51), L(<<Atom(Z2), Atom(EphAmt)>>)), c1>>)),
-                          Spend(p, Z2, EphAmt, L(<<c2>>))>>)>>),
-          flags |-> {"DONT_VALIDATE_SIGNATURE"}, max |-> BigMax, clvm |-> Zero, vis |-> "empty", consts |-> Doms, validKeys |-> {}]
-         : c1 \in LockConds, c2 \in LockConds, p \in {Coin1Id, P2}}
-        ELSE {})
+\* a pick is a small tuple; the input tree is built from it on demand (keeps Init cheap)
+Picks == {<<"one", s>> : s \in UNION {[1..n -> LockPicks] : n \in 1..MaxAsserts}}
+         \cup (IF TwoSpends THEN {<<"two", c1, c2, eph>> : c1 \in LockPicks, c2 \in LockPicks, eph \in BOOLEAN} ELSE {})
+TreeOf(p) ==
+  IF p[1] = "one" THEN L(<<L(<<Spend(P1, Z1, Coin1Amt, L([i \in DOMAIN p[2] |-> CondOf(p[2][i])]))>>)>>)
+  ELSE \* the second spend is the ephemeral child of the first, or an unrelated coin
+       L(<<L(<<Spend(P1, Z1, Coin1Amt, L(<<Cons(Op(51), L(<<Atom(Z2), Atom(EphAmt)>>)), CondOf(p[2])>>)),
+               Spend(IF p[4] THEN Coin1Id ELSE P2, Z2, EphAmt, L(<<CondOf(p[3])>>))>>)>>)
+InOf(p) == [tree |-> TreeOf(p), flags |-> {"DONT_VALIDATE_SIGNATURE"}, max |-> BigMax, clvm |-> Zero, vis |-> "empty",
+            consts |-> Doms, validKeys |-> {}]
 
 \* chain lattice (consistent states): small values and values next to the type maximum
 H32 == {<<>>, <<1>>, <<2>>, <<3>>, <<255, 255, 255, 253>>, <<255, 255, 255, 254>>}
@@ -42,9 +41,10 @@ Chains(n) ==
   \cup UNION {{MkChain(n, ph, bh, ts, bs) : ph \in {<<3>>, <<255, 255, 255, 254>>}, bh \in {<<>>, <<2>>}, bs \in {x \in H64 : Le(x, ts)}}
               : ts \in H64}
 
-VARIABLES in, phase
-Init == in \in Inputs /\ phase = 0
-Next == phase = 0 /\ phase' = 1 /\ UNCHANGED in
+VARIABLES pick, phase
+Init == pick \in Picks /\ phase = 0
+Next == phase = 0 /\ phase' = 1 /\ UNCHANGED pick
+in == InOf(pick)
 
 NSpends == Len(SpendsOfTree(in.tree))
 Equiv == phase = 1 =>
